@@ -202,6 +202,26 @@ def run(chk):
                                         {"tag": t, "file": nm, "two_roots": True, "lengths": [l1, l2]})
             os.unlink(os.path.join(d, nm)); os.unlink(os.path.join(d2, nm))
         stats["two_roots_same_name"] = 4
+        # names that differ in Unicode normal form only are different files: each is hashed for ITS content
+        twins = [("re\u0301sume\u0301.dat", "r\u00e9sum\u00e9.dat"), ("A\u030angstro\u0308m", "\u00c5ngstr\u00f6m"), ("\u2126.bin", "\u03a9.bin")]
+        for i, (n1, n2) in enumerate(twins):
+            for nm, sd, ln in ((n1, 3000 + i, 20 + i), (n2, 4000 + i, 33 + i)):
+                with open(os.path.join(d, nm), "wb") as fh:
+                    fh.write(lcg_bytes(sd, ln))
+            for nm, sd, ln in ((n1, 3000 + i, 20 + i), (n2, 4000 + i, 33 + i)):
+                data = lcg_bytes(sd, ln)
+                f = impl.mkfile(d, nm)
+                for t in tags:
+                    try:
+                        got = pats[t].process(f)
+                    except Exception as e:      # noqa: BLE001
+                        got = "%s: %s" % (type(e).__name__, e)
+                    chk.count(("tag-unicode-twin", t, i, nm == n1))
+                    if got != std[t](data):
+                        chk.oracle_fail("%%%s() rendered %r for a file whose name is %r, the digest of its content is %r (a file whose name is the other normal form exists next to it)"
+                                        % (t, got, nm, std[t](data)), {"tag": t, "file": nm, "length": ln})
+            os.unlink(os.path.join(d, n1)); os.unlink(os.path.join(d, n2))
+        stats["unicode_twin_names"] = len(twins)
         # large files: implementation vs one-shot only
         for size in ([1 << 20, (1 << 20) + 1, (1 << 20) + 4097 + 65536] if chk.tier == "quick" else [1 << 20, (1 << 20) + 1, (1 << 21) + 70001, (1 << 24) + 1]):
             seed = rng.randrange(65536)
